@@ -8,6 +8,31 @@ VERIF = os.path.dirname(os.path.dirname(os.path.abspath(__file__)))
 
 # property -> (technique, clause decided, trusted base / what is not decided, DESIGN ref)
 CLAIMS = {
+    "C05": ("constant evaluation of the category masks + categoriser tables (AST) and exit-status abstract "
+            "interpretation of abidiff with the verdict predicates as symbolic atoms",
+            "a category the harmful categoriser assigns is never in the default-off mask; on every path of abidiff's "
+            "main where has_net_changes()/has_incompatible_changes() hold the exit value carries CHANGE/INCOMPATIBLE; "
+            "the removal counters are disjuncts of has_incompatible_changes",
+            "that a given source edit produces a diff node with the harmful category (diff engine, runtime)",
+            "§3 R-CATPART, R-STATUS; §4 C05"),
+    "C07": ("constant evaluation of enum masks, categoriser -> mask table agreement, option-guard extraction (AST)",
+            "harmless and harmful masks are disjoint and cover every category with the three special ones; each "
+            "category a categoriser assigns lies in its mask and vice versa; is_filtered_out consults only the "
+            "allowed mask; the masks are switched off exactly under !--harmless / --no-harmful",
+            "which category a particular change receives (runtime)",
+            "§3 R-CATPART, R-OPTWIRE; §4 C07"),
+    "C10": ("table extraction (net counter -> counters -> containers fed, section loop -> skip predicate -> "
+            "suppressed set) and ordering checks over the reporters' AST",
+            "each net counter is num - filtered of one container and its suppressed twin; each section skips through "
+            "the predicate that looks up that very set; the summary precedes every section and is not gated by --stat",
+            "arithmetic on the actual counts is runtime; it follows from same-container/same-filter",
+            "§3 R-NETPAIR, R-SECTION, R-STATFIRST; §4 C10"),
+    "C23": ("must-pass-through dataflow (change_kind test before any non-false return) + application-table "
+            "extraction from the twelve suppression loops",
+            "the four change_kind predicates cannot answer true without testing the kind of change; every application "
+            "loop passes the kind and stores into the suppressed set that belong to the container it iterates",
+            "name / regex matching of the suppression against the interface is runtime",
+            "§3 R-CHGKIND; §4 C23"),
     "C02": ("table extraction from the AST (string literals, switch / if-chain enum tables) and set / inverse-table "
             "comparison between writer and reader",
             "every element / attribute name the writer emits is asked for by the reader and vice versa; every "
